@@ -418,7 +418,7 @@ def overlaps2_layered(S):
     _overlaps(S, 2, layered_first=True, limit=False)
 
 
-@obligation('C20.spheres.overlaps4', functions=OVL, tier='thorough', max_paths=3000, wall_s=2400, cost=20,
+@obligation('C20.spheres.overlaps4', functions=OVL, tier='thorough', max_paths=3000, wall_s=1200, cost=20,
             bounds='4 uniform spheres, all geometry symbolic')
 def overlaps4(S):
     _overlaps(S, 4, limit=False)
